@@ -10,6 +10,7 @@ import urllib.parse
 import struct
 import copy
 import string
+import re
 from collections import namedtuple
 from warnings import warn
 
@@ -653,9 +654,7 @@ class Message:
 
                 # FIXME: This sounds like it should be part of
                 # hpostportjoin/-split
-                if refmsg.opt.uri_host and not (
-                    host.startswith("[") and host.endswith("]")
-                ):
+                if refmsg.opt.uri_host and not _is_bracketed_ip_literal(host):
                     # A reg-name from the option: anything that would be
                     # mistaken for URI syntax needs to be escaped
                     escaped_host = _quote_for_host(host)
@@ -892,7 +891,38 @@ class UndecidedRemote(
         return f"UndecidedRemote({f'{self.scheme}://{self.hostinfo}'!r})"
 
 
+def _is_bracketed_ip_literal(host: str) -> bool:
+    """True if host is an IPv6 address in brackets (possibly with a zone
+    identifier in its URI form as per RFC 6874, "%25" followed by unreserved or
+    percent encoded characters), i.e. can be placed in a URI's authority as it
+    is
+
+    >>> _is_bracketed_ip_literal("[2001:db8::1]")
+    True
+    >>> _is_bracketed_ip_literal("[fe80::1%25eth0]")
+    True
+    >>> _is_bracketed_ip_literal("[fe80::1%eth0]")
+    False
+    >>> _is_bracketed_ip_literal("[::1]/a?b=]")
+    False
+    """
+    if not (host.startswith("[") and host.endswith("]")):
+        return False
+    address, percent, zone = host[1:-1].partition("%25")
+    if "%" in address or (percent and not _zone_id.fullmatch(zone)):
+        # ipaddress would accept any text as scope ID
+        return False
+    try:
+        ipaddress.IPv6Address(address)
+    except ValueError:
+        return False
+    return True
+
+
 _ascii_lowercase = str.maketrans(string.ascii_uppercase, string.ascii_lowercase)
+
+
+_zone_id = re.compile(r"([A-Za-z0-9._~-]|%[0-9A-Fa-f]{2})+")
 
 
 def _remove_dot_segments(path: str) -> str:
